@@ -1,10 +1,14 @@
 import HappyModel.Proto
 import HappyModel.C07.Spec
+import HappyModel.C07.Rearm
 /-! Line-protocol driver for C07 (other side: `hv/props/c07.py`).
 
 * `begin model <family>` — C07 has no per-component model: the model side states what the theorems
   (`HappyProofs/C07/Props.lean`) predict for *every* scenario summary, so any deviation of the
   implementation's summary is a disagreement.
+* `begin rearm <default capacity> <t0 ns> <end ns>` + lines `b <ns> <lossy 0|1>` (boundaries in schedule order)
+  and `s <lo> <hi> <cap>` (shifts over boundary indices) — the `_ShiftChange` deliveries of the modelled
+  `ShiftedServer` timer (`Rearm.observed`): `past 0`, `timetravel 0`, `spin 0`, then `sc <ns> <capacity>` lines.
 * `begin judge <family> <bound>` + trace lines (`p clock time emitter`, `d clock n`, `w n`) —
   evaluates `judge` (the executable form of `Holds`, see `judge_none_iff_holds`). -/
 namespace HappyModel.C07.Driver
@@ -30,8 +34,30 @@ def judgeBlock (family : String) (bound : Nat) (body : List String) : List Strin
     | none => ["ok"]
     | some sig => [s!"viol {sig}"]
 
+def parseBoundary (ts : List String) : Option Rearm.Boundary :=
+  match ts with
+  | ["b", ns, l] => match nat? ns, nat? l with
+    | some ns, some l => some ⟨ns, l != 0⟩
+    | _, _ => none
+  | _ => none
+
+def parseShift (ts : List String) : Option Rearm.Shift :=
+  match ts with
+  | ["s", lo, hi, c] => match nat? lo, nat? hi, nat? c with
+    | some lo, some hi, some c => some ⟨lo, hi, c⟩
+    | _, _, _ => none
+  | _ => none
+
+def rearmBlock (dflt t0 endT : Nat) (body : List String) : List String :=
+  let bs := body.filterMap (fun l => parseBoundary (toks l))
+  let ss := body.filterMap (fun l => parseShift (toks l))
+  expectation ++ (Rearm.observed bs ss dflt t0 endT).map (fun p => s!"sc {p.1} {p.2}")
+
 def handle (hdr : List String) (body : List String) : List String :=
   match hdr with
+  | ["rearm", dflt, t0, endT] => match nat? dflt, nat? t0, nat? endT with
+    | some d, some t, some e => rearmBlock d t e body
+    | _, _, _ => ["bad-args"]
   | ["model", _family] => expectation
   | ["judge", family, bound] => match nat? bound with
     | some b => judgeBlock family b body
